@@ -107,7 +107,7 @@ func (c *ctx) caseDeep(which, shape string, d int) {
 	case "timeout":
 		c.violate("parser:"+which, "no-termination", "parse did not return within 180 s", key)
 	case "panic":
-		c.violate("parser:"+which, "panic", lastLine(out.String(), "SITE"), key)
+		c.violate("parser:"+which, "parser-panics", lastLine(out.String(), "SITE"), key)
 	}
 }
 
